@@ -1034,3 +1034,66 @@ func sortFValues(vs []FValue) {
 		}
 	}
 }
+
+// ---- pinned declarations: classes a realistic regression needs, not left to the draw ----
+
+// pinnedC12: compiled under theEnumZ (explicit UNSPECIFIED first option) as the first unit of every run
+func pinnedC12() []genDecl {
+	mk := func(name string, p Prop) genDecl { p.Name = name; return genDecl{P: p} }
+	u := func(v uint64) *uint64 { return &v }
+	return []genDecl{
+		// unsigned minimum 0, exclusive: "greater than 0" (seeded C12-A / C12-G)
+		mk("pinU32", Prop{T: FTy{Kind: TInt, IK: U32, Int: &IntRules{Min: ptr(int64(0)), XMin: ptr(true)}}}),
+		mk("pinU64", Prop{T: FTy{Kind: TInt, IK: U64, Int: &IntRules{Min: ptr(int64(0)), XMin: ptr(true), Max: ptr(int64(10))}}}),
+		mk("pinU32Incl", Prop{T: FTy{Kind: TInt, IK: U32, Int: &IntRules{Min: ptr(int64(0))}}}),
+		// signed bounds at both inclusivities
+		mk("pinI32", Prop{T: FTy{Kind: TInt, IK: I32, Int: &IntRules{Min: ptr(int64(1)), Max: ptr(int64(5)), XMin: ptr(false), XMax: ptr(true)}}}),
+		// bool const = false (seeded C12-E)
+		mk("pinBoolFalse", Prop{Req: false, T: FTy{Kind: TBool, HasBool: true, Const: ptr(false)}}),
+		mk("pinBoolTrue", Prop{T: FTy{Kind: TBool, HasBool: true, Const: ptr(true)}}),
+		// key formats (seeded C12-B shares constraints between key fields; C12-F changes the id62 pattern)
+		mk("pinId62", Prop{T: FTy{Kind: TKey, KF: KId62}}),
+		mk("pinId62b", Prop{Req: true, T: FTy{Kind: TKey, KF: KId62}}),
+		mk("pinUuid", Prop{T: FTy{Kind: TKey, KF: KUuid}}),
+		mk("pinUuidArr", Prop{PK: PArray, Arr: &ArrRules{Min: u(1), Uniq: ptr(true)}, T: FTy{Kind: TKey, KF: KUuid}}),
+		// enum in / not-in under an explicit UNSPECIFIED first option (seeded C12-C / C12-H)
+		mk("pinEnumIn", Prop{T: FTy{Kind: TEnum, Enum: &EnumRules{In: []string{"RED", "COLOR_BLUE"}}}}),
+		mk("pinEnumNotIn", Prop{T: FTy{Kind: TEnum, Enum: &EnumRules{NotIn: []string{"GREEN", "UNSPECIFIED"}}}}),
+		// required over presence kinds (seeded C12-D)
+		mk("pinReqStr", Prop{Req: true, T: FTy{Kind: TStr, Str: &StrRules{Min: u(1)}}}),
+		mk("pinOptStr", Prop{Opt: true, T: FTy{Kind: TStr, Str: &StrRules{Min: u(2)}}}),
+		mk("pinReqObj", Prop{Req: true, T: FTy{Kind: TObject}}),
+		mk("pinReqArr", Prop{Req: true, PK: PArray, T: FTy{Kind: TStr}}),
+	}
+}
+
+// pinnedC04: one object of 16 properties (more than 10: two-digit field numbers, seeded C04-E)
+// with the combinations the seeded changes of C04 need
+func pinnedC04() []genDecl {
+	mk := func(name string, p Prop) genDecl { p.Name = name; return genDecl{P: p} }
+	u := func(v uint64) *uint64 { return &v }
+	return []genDecl{
+		// optional x message-typed (seeded C04-D / C04-G)
+		mk("pinOptTs", Prop{Opt: true, T: FTy{Kind: TTimestamp}}),
+		mk("pinOptObj", Prop{Opt: true, T: FTy{Kind: TObject}}),
+		mk("pinOptDate", Prop{Opt: true, T: FTy{Kind: TDate}}),
+		mk("pinOptDecimal", Prop{Opt: true, T: FTy{Kind: TDecimal}}),
+		mk("pinOptAny", Prop{Opt: true, T: FTy{Kind: TAny}}),
+		mk("pinOptStr", Prop{Opt: true, T: FTy{Kind: TStr}}),
+		// uniqueItems on scalar items, both values; array rules without item rules (seeded C04-A)
+		mk("pinUniqF", Prop{PK: PArray, Arr: &ArrRules{Uniq: ptr(false)}, T: FTy{Kind: TFloat, F64: true}}),
+		mk("pinUniqT", Prop{PK: PArray, Arr: &ArrRules{Uniq: ptr(true), Min: u(0)}, T: FTy{Kind: TStr}}),
+		mk("pinArrTs", Prop{PK: PArray, Arr: &ArrRules{Max: u(3)}, T: FTy{Kind: TTimestamp}}),
+		// enum rules naming the explicit zero option (seeded C04-B)
+		mk("pinEnumNotIn", Prop{T: FTy{Kind: TEnum, Enum: &EnumRules{NotIn: []string{"DARK_RED", "COLOR_UNSPECIFIED"}}}}),
+		// bool const both values (seeded C04-C)
+		mk("pinBoolF", Prop{T: FTy{Kind: TBool, HasBool: true, Const: ptr(false)}}),
+		mk("pinBoolT", Prop{T: FTy{Kind: TBool, HasBool: true, Const: ptr(true)}}),
+		// key formats with entity keys (seeded C04-F)
+		mk("pinKeyCustom", Prop{T: FTy{Kind: TKey, KF: KCustom, KPat: "^[a-z]{3}$"}}),
+		mk("pinKeyInformal", Prop{T: FTy{Kind: TKey, KF: KInformal, Entity: &EntityKey{TenantKey: ptr("account")}}}),
+		mk("pinKeyUuid", Prop{Req: true, T: FTy{Kind: TKey, KF: KUuid, Entity: &EntityKey{ForeignP: ptr("foo.v1"), ForeignE: ptr("bar")}}}),
+		// the settings this round added to the language
+		mk("pinMapExt", Prop{PK: PMap, MapExt: &MapExt{Single: ptr("pair")}, T: FTy{Kind: TStr}, Desc: "first para\n\nsecond para"}),
+	}
+}
